@@ -48,8 +48,14 @@ def _run_shard(job):
     sname, idx, pins, tier, twin = job
     spec = _SPECS[sname]
     t = time.time()
-    res = explore(spec.fn, pins=pins, tier=tier, twin=twin, max_paths=spec.max_paths, max_seconds=spec.max_seconds,
-                  keep_paths=not twin, setup=spec.setup or _clear_caches)
+    try:
+        res = explore(spec.fn, pins=pins, tier=tier, twin=twin, max_paths=spec.max_paths, max_seconds=spec.max_seconds,
+                      keep_paths=not twin, setup=spec.setup or _clear_caches)
+    except BaseException as e:            # never let a worker die: an engine crash is an inconclusive shard
+        import traceback
+        from .explore import ShardResult
+        res = ShardResult()
+        res.inconclusive = "engine crash: " + type(e).__name__ + ": " + str(e)[:300] + " | " + traceback.format_exc()[-700:]
     return sname, idx, pins, twin, res, time.time() - t
 
 
@@ -273,7 +279,7 @@ def run_property(modname, tier="quick", only=None, max_shards=None, verbose=Fals
 
     # ---- report
     replay_paths = []
-    for v in new_violations:
+    for v in new_violations[:40]:
         d = dict(property=prop, module=modname, harness=v["spec"], label=v["label"], tier=tier, seed=seed, choices=v["choices"],
                  values=v["values"], observed_symbolic=v["observed"], concrete=v.get("concrete"))
         digest = hashlib.sha1(json.dumps(d, sort_keys=True).encode()).hexdigest()[:16]
@@ -332,7 +338,7 @@ def run_property(modname, tier="quick", only=None, max_shards=None, verbose=Fals
             "regex results on symbolic text do not depend on the digits of numerals (checked with 3 representatives)"],
         wall_s=round(wall, 2), violations=len(new_violations),
     )
-    if write_evidence and not only and not max_shards:
+    if write_evidence and not only and not max_shards and not os.environ.get('VERIF_NO_EVIDENCE'):
         os.makedirs(os.path.join(VERIF, "evidence"), exist_ok=True)
         with open(os.path.join(VERIF, "evidence", prop + ".json"), "w") as f:
             json.dump(evidence, f, indent=1, sort_keys=True, default=str)
